@@ -10,6 +10,7 @@ import Qfx.Lemmas.CodecDictNested
 import Qfx.Lemmas.CodecDictWalk
 import Qfx.Lemmas.CodecDictExample
 import Qfx.Lemmas.CodecDictStack
+import Qfx.Lemmas.CodecDictNest
 import Qfx.Lemmas.CodecGroupNested
 open Qfx Qfx.Spec
 
@@ -553,6 +554,30 @@ theorem C13_dict_anydepth_read_back (d : Dicts) (mt : Bytes) (fs : List DNode) (
       simp; omega
     rw [this]; rfl
 
+/-- the same with the parser side described FROM THE DICTIONARY ALONE: the member fields are a well-nested sequence for `G`'s member list
+    (`GroupWalk`) over a dictionary tree whose levels share no tag along a branch (`TreeOK`), `z0` is listed nowhere in that tree
+    (`SegNested`); nothing is assumed about the parser's tag stack. -/
+theorem C13_dict_wellnested_read_back (d : Dicts) (mt : Bytes) (fs : List DNode) (ha : AppMsg d mt fs) (G : Tag)
+    (S : Tag → Prop) (d0 : Tag) (tmplr : List Item) (es : List (List Block))
+    (t8 t9 t35 z0 t10 : TagValue) (preA postB : List TagValue)
+    (hseg : SegNested d fs ⟨preA, countTV G es.length, es.flatMap serBlocks, z0⟩)
+    (hS : ∀ t, t ∈ tmplTags (.elem d0 :: tmplr) → S t) (hSz : S z0.tag) (hzT : findItem (.elem d0 :: tmplr) z0.tag = none)
+    (hes : ∀ e ∈ es, EntryOKB S d0 tmplr e) (hn : es.length < 9223372036854775808)
+    (hw8 : IsWire t8) (hw9 : IsWire t9) (hw35 : IsWire t35) (hw10 : IsWire t10)
+    (h8 : t8.tag = 8) (h9 : t9.tag = 9) (h35 : t35.tag = 35) (h10 : t10.tag = 10) (hv : t35.value = mt)
+    (hpost : PlainFields d postB) (hzG : ∀ tv ∈ z0 :: postB, tv.tag ≠ G)
+    (hng10 : NoGroupTag d 10) (hh10 : isHeaderField d 10 = false)
+    (hbl : atoi t9.value = .ok ((fieldsLength (t8 :: t9 :: t35 :: ((preA ++ countTV G es.length :: (es.flatMap serBlocks ++ [z0])) ++ (postB ++ [t10]))) : Nat) : Int)) :
+    ∃ (m : Message) (f : Field) (gs : List GEntry),
+      parseMessage Fixes.cur d (wireOf (t8 :: t9 :: t35 :: ((preA ++ countTV G es.length :: (es.flatMap serBlocks ++ [z0])) ++ (postB ++ [t10])))) = .ok m ∧
+      alFind m.body.lookup G = some f ∧
+      getGroup (.elem d0 :: tmplr) (f.full m.fields) = .ok gs ∧ gs.length = es.length ∧
+      (∀ (i : Nat) (e : List Block), es[i]? = some e → ∃ g : GEntry, gs[i]? = some g ∧ g.tags = e.map (·.tag) ∧
+        ((e.map (·.tag)).Nodup → ∀ b ∈ e, ∃ tail, alFind g.lookup b.tag = some (b.tvs ++ tail))) ∧
+      ((∀ tv ∈ postB, tv.tag ≠ z0.tag) → m.body.getBytes m.fields z0.tag = .ok z0.value) :=
+  C13_dict_anydepth_read_back d mt fs ha G S d0 tmplr es t8 t9 t35 z0 t10 preA postB hseg.ok hS hSz hzT hes hn
+    hw8 hw9 hw35 hw10 h8 h9 h35 h10 hv hpost hzG hng10 hh10 hbl
+
 /-- a group as in `C13_read_nested` is itself a well-formed nested block of an enclosing group: it reads back (and is skipped)
     whenever what follows carries a tag of `S'` that is allowed inside (`S`) and is not one of its template tags -/
 theorem C13_nested_group_is_block (S S' : Tag → Prop) (G d : Tag) (tmplr : List Item)
@@ -708,7 +733,8 @@ example :
    "same fields and values in the same order"                 C13_roundtrip_flat (Write then Read, templates without nesting, any setter calls),
                                                              C13_read_inverts_wire_flat (whole Read, templates without nesting);
                                                              C13_read_member, C13_read_delimiter (one step each, any template); nested: C13_roundtrip_nodict_full
-   with the dictionary, nested groups: parse + GetGroup(nested template)           C13_dict_anydepth_read_back (any depth), C13_dict_depth2_read_back
+   with the dictionary, nested groups: parse + GetGroup(nested template)           C13_dict_wellnested_read_back (any depth, hypotheses from the dictionary alone),
+                                                             C13_dict_anydepth_read_back, C13_dict_depth2_read_back
    with the dictionary, group containing nested groups (D6 scenario), whole parse   C13_dict_depth2_group_mid, C13_dict_depth2_group_last (any arrangement of
                                                              two levels), C13_dict_nested_group_mid
    "fields following the group are still found"              C13_read_stops_at_follower; with dictionary: C13_dict_depth2_group_mid, C13_dict_nested_group_mid, C13_fixed_behind_nested_group
